@@ -158,7 +158,7 @@ def main(argv=None):
                     if base is None: continue
                     lvl = base.get('_level', 0) + 1
                     sub = dict(base, name='%s#%d' % (base['name'], k), _prefix=pfx, _level=lvl,
-                               _split=(len(pfx) + base.get('_split_step', 12)) if lvl < 3 else None)
+                               _split=(sum(1 for e in pfx if len(e) > 2 and e[2] and e[0] != 'vals') + base.get('_split_step', 6)) if lvl < 3 else None)
                     byname[sub['name']] = sub
                     nxt.append((hname, sub, a.tier, seed, deadline))
             if nxt: log('%d sub-trees dispatched' % len(nxt))
